@@ -3,6 +3,7 @@ CONSTANTS
   MaxIdx = 5
   MaxTerm = 2
   MaxReady = 4
+  InstallSaveFirst = FALSE
   SnapshotMustBeInWal = TRUE
   MaxCrash = 2
 INVARIANT TypeOK
